@@ -80,8 +80,18 @@ def cases(rng, tier):
         i += 1
         out.append({"chain": ch, "header": rng.choice(["encoded", "raw", "encrypted_ctor", "encrypted_setter"]), "password": rng.choice(G.PASSWORDS),
                     "nmembers": rng.choice([1, 2, 3]), "sizes": [rng.choice([24, 31, 32, 33, 48, 100, 1000, 5000, 40000]) for _ in range(3)], "seed": rng.getrandbits(32),
-                    "append": rng.random() < 0.2})
+                    "append": rng.random() < 0.3, "append_header": rng.choice(["same", "default"])})
     return out
+
+
+def _names(data, pw):
+    import py7zr
+
+    try:
+        with py7zr.SevenZipFile(io.BytesIO(data), password=pw) as z:
+            return z.getnames()
+    except Exception as e:
+        return "unreadable: " + pz.exc_sig(e)
 
 
 def _windows(blob, step):
@@ -111,7 +121,10 @@ def run_case(case):
                 path, obj, data = K.write_session(d, members, case["chain"], pw, case["header"], "bytesio", "writestr")
                 if case["append"]:
                     extra = [("secret-dir/appended-%s.dat" % _tokens(r, 6).decode(), _tokens(random.Random(case["seed"] + 1), 64))]
-                    path, obj, data = K.write_session(d, extra, case["chain"], pw, case["header"], "bytesio", "writestr", mode="a", obj=obj)
+                    # the append session either asks for the same header mode again or says nothing about it (default flags):
+                    # names that needed the password before must need it afterwards
+                    ah = case["header"] if case.get("append_header", "same") == "same" else "encoded"
+                    path, obj, data = K.write_session(d, extra, case["chain"], pw, ah, "bytesio", "writestr", mode="a", obj=obj)
                     allm = members + extra
                 else:
                     allm = members
@@ -201,6 +214,20 @@ def run_case(case):
                 pass
             except Exception as e:
                 viol.append({"key": "no-password-open/%s" % type(e).__name__, "what": "opening a header-encrypted archive without password raised %s instead of PasswordRequired" % pz.exc_sig(e)})
+            # an append session opened with a wrong password must fail and leave the archive alone
+            for wrong in (pw + "x", pw[:-1] if len(pw) > 1 else "zz", pw.swapcase() if pw.swapcase() != pw else pw + " "):
+                bio = io.BytesIO(data)
+                try:
+                    with py7zr.SevenZipFile(bio, "a", password=wrong) as z:
+                        z.writestr(b"intruder", "intruder.txt")
+                    viol.append({"key": "append-with-wrong-password-accepted", "what": "append session with a wrong password on a header-encrypted archive ended normally; archive now lists %r with that password" % (
+                        _names(bio.getvalue(), wrong),)})
+                    break
+                except Exception:
+                    obs["wrong_password_appends_refused"] = obs.get("wrong_password_appends_refused", 0) + 1
+                    if bio.getvalue() != data:
+                        viol.append({"key": "append-with-wrong-password-modifies", "what": "append session with a wrong password raised but changed the archive"})
+                        break
         # ---- (3) two archives from identical input
         a, b = arcs
         if props_ivs and len(props_ivs) == 2 and set(props_ivs[0]) & set(props_ivs[1]):
